@@ -449,7 +449,7 @@ def run(ctx):
         import json
         progs = [tasks_util.load_program(json.load(open(ctx.replay_in))["replay"]["program"])]
     else:
-        progs = [gen_case(rng) for _ in range(ctx.budget(220, 6000))]
+        progs = [gen_case(rng) for _ in range(ctx.budget(220, 4000))]
     srcs = [spine.to_src(P) for P in progs]
     sems = semcheck.spec_batch(sdrv, progs)
     results = pmap(work, srcs, chunksize=2)
@@ -536,5 +536,5 @@ def run(ctx):
             ctx.fail(what + " | program: " + spine.to_src(small).replace("\n", " "),
                      {"program": small, "src": spine.to_src(small)}, sig)
     ctx.obligation("correspondence: Lean BN model = real PGM (CPTs, OrCPTs, marginals) on %d exported programs" % ncorr,
-                   ndiff == 0 and ncorr > 0, "" if first_diff is None else first_diff[1])
+                   ndiff == 0 and (ncorr > 0 or bool(ctx.replay_in)), "" if first_diff is None else first_diff[1])
     return ctx.finish("other", MANIFEST["text"])
